@@ -41,6 +41,7 @@ var c16Reqs = []c16Req{
 	{"GET absent only-if-cached", "GET", "http://example.com/absent", []string{"Cache-Control", "only-if-cached"}},
 	// (from here on: used in the listed programs only, not in the all-pairs product)
 	{"GET u A=['',1] (an empty field line first)", "GET", U, []string{"X-A", "", "X-A", "1", "Accept-Encoding", "", "Accept-Encoding", "gzip"}},
+	{"GET root (URL without a path) A=1", "GET", "http://example.com?x=1", []string{"X-A", "1"}},
 }
 
 const c16PairReqs = 6
@@ -55,7 +56,7 @@ func c16Programs() [][]int {
 			ps = append(ps, []int{i, j})
 		}
 	}
-	ps = append(ps, []int{5, 5, 0}, []int{0, 0, 0}, []int{0, 0, 3}, []int{0, 1, 4}, []int{0, 4, 4}, []int{0, 3, 3}, []int{0, 1, 3}, []int{0, 2, 4}, []int{0, 0, 1}, []int{6, 6}, []int{6, 0}, []int{6, 3})
+	ps = append(ps, []int{5, 5, 0}, []int{0, 0, 0}, []int{0, 0, 3}, []int{0, 1, 4}, []int{0, 4, 4}, []int{0, 3, 3}, []int{0, 1, 3}, []int{0, 2, 4}, []int{0, 0, 1}, []int{6}, []int{6, 0}, []int{7})
 	return ps
 }
 
@@ -355,6 +356,9 @@ func TestC16Race(t *testing.T) {
 				opt := world.Opt{}
 				if round%2 == 1 {
 					opt.DSN = "memcache://" // the built-in memory backend instead of the recording one
+				}
+				if round%8 >= 6 {
+					opt.Logger = "text" // a logger enabled at debug level reads what it is handed while other goroutines work
 				}
 				w := world.New(opt)
 				w.NoWait = true
